@@ -475,7 +475,7 @@ PauseNext ==                  \* the peer will not read: the transport pauses th
     /\ UNCHANGED scn
 
 ResumeWriting ==
-    /\ Env(<<"ResumeWriting">>) /\ s.wpaused
+    /\ Env(<<"ResumeWriting">>) /\ s.wpaused /\ s.holds["v"] # "none"
     /\ s' = IF s.pc["w"] = "drain" /\ s.fut["w"] = "pending"
             THEN [s EXCEPT !.wpaused = FALSE, !.fut["w"] = "done", !.ready = Append(@, T("w"))]
             ELSE [s EXCEPT !.wpaused = FALSE]
